@@ -141,12 +141,13 @@ func (r *recorder) wrote(side int, p []byte) {
 
 // pipe is one direction of the in-memory carrier pair.
 type pipe struct {
-	mu     sync.Mutex
-	cond   *sync.Cond
-	buf    []byte
-	closed bool
-	limit  int
-	idle   chan struct{} // strobed when a reader finds the pipe empty
+	mu      sync.Mutex
+	cond    *sync.Cond
+	buf     []byte
+	closed  bool
+	limit   int
+	idle    chan struct{} // strobed when a reader finds the pipe empty
+	waiting bool          // a reader is blocked on the empty pipe
 }
 
 func newPipe(limit int) *pipe {
@@ -183,7 +184,9 @@ func (p *pipe) read(b []byte) (int, error) {
 		case p.idle <- struct{}{}:
 		default:
 		}
+		p.waiting = true
 		p.cond.Wait()
+		p.waiting = false
 	}
 	if len(p.buf) == 0 {
 		return 0, io.EOF
@@ -201,7 +204,15 @@ func (p *pipe) close() {
 	p.mu.Unlock()
 }
 
-// isIdle reports whether the pipe is empty and its reader is waiting in it.
+// readerIdle reports whether the pipe is empty and its reader is blocked
+// waiting for more: everything written so far has been fully processed.
+func (p *pipe) readerIdle() bool {
+	p.mu.Lock()
+	defer p.mu.Unlock()
+	return p.waiting && len(p.buf) == 0
+}
+
+// drained reports whether the pipe is empty.
 func (p *pipe) drained() bool {
 	p.mu.Lock()
 	defer p.mu.Unlock()
